@@ -33,6 +33,12 @@ def gen_c09_page(rng):
         kind = rng.choice(["-", "-", "o", "o", "x", "~", "<", ">"])
         pr = (" P%d" % rng.randint(0, 9)) if kind != "-" and rng.random() < 0.6 else ""
         ws = [rng.choice(["plain", "foo", "Baz_1"])]
+        r0 = rng.random()
+        if r0 < 0.12:       # already carries a ZID
+            ws.insert(0, "2312%02d#%s%s" % (rng.randint(1, 28), rng.choice("ABCDEFGH"), "%02d" % rng.randint(0, 99)))
+        elif r0 < 0.24:     # edited earlier: modify date in front of the ZID
+            ws.insert(0, "2312%02d#%s%s" % (rng.randint(1, 28), rng.choice("JKLMN"), "%02d" % rng.randint(0, 99)))
+            ws.insert(0, "2401%02d" % rng.randint(1, 28))
         for _ in range(rng.randint(0, 4)):
             r = rng.random()
             if r < 0.25:
